@@ -3,6 +3,15 @@ from props import codec
 
 def run(ctx, model):
     codec.run(ctx, model, "C06")
+    # the identity objects (named in the statement) as codecs: boundary serial numbers and revisions, every name length
+    from props import c16
+    rng = ctx.rng
+    cases = [c16.gen_fields(rng, namelen=n) for n in range(0, 256, 5)] + [c16.gen_fields(rng) for _ in range(ctx.budget(150, 1500))]
+    for serial in (0, 1, 0xF, 0x10, 0xFFF, 0xFFFFFF, 0x0FFFFFFF, 0x10000000, 0x7FFFFFFF, 0x80000000, 0xFFFFFFFF, 0x00C0FFEE):
+        f = c16.gen_fields(rng)
+        f["serial"] = serial
+        cases.append(f)
+    c16.codec_level(ctx, model, cases)
 
 
 def replay(ctx, model, data):
